@@ -170,7 +170,9 @@ def _is_property_call(node):
 
 
 class Repo(object):
-    def __init__(self, root):
+    def __init__(self, root, extra=None):
+        """extra: {module name: path} of additional modules analysed as if they were part of the package (used by the
+        conformance suite of the interpreter)"""
         self.root = os.path.abspath(root)
         self.pkgdir = os.path.join(self.root, 'src', PKG)
         if not os.path.isdir(self.pkgdir):
@@ -180,6 +182,8 @@ class Repo(object):
             path = os.path.join(self.pkgdir, name + '.py')
             if not os.path.isfile(path):
                 raise AnalysisError('anchor vanished: module %s' % path)
+            self.modules[name] = Module(self, name, path)
+        for name, path in (extra or {}).items():
             self.modules[name] = Module(self, name, path)
 
     def module(self, name):
